@@ -11,6 +11,8 @@ from . import lang as reflang
 NS_XHTML = 'http://www.w3.org/1999/xhtml'
 NS_XML = 'http://www.w3.org/XML/1998/namespace'
 CSS_WS = ' \t\n\r\f'
+HTML_ONLY = {'any-link', 'link', 'checked', 'default', 'indeterminate', 'disabled', 'enabled', 'required', 'optional',
+             'placeholder-shown', 'read-only', 'read-write', 'in-range', 'out-of-range', 'defined'}
 SPECIAL = (bs4.Comment, bs4.Declaration, bs4.CData, bs4.ProcessingInstruction, bs4.Doctype)
 
 
@@ -431,6 +433,8 @@ class Ctx:
             return and3([self.nth(el, 'child', 0, 1, None), self.nth(el, 'last-child', 0, 1, None)])
         if name == 'only-of-type':
             return and3([self.nth(el, 'of-type', 0, 1, None), self.nth(el, 'last-of-type', 0, 1, None)])
+        if name in HTML_ONLY and not self.is_html:
+            return False                 # documented as HTML-only: never matches in XML that is not XHTML
         raise ValueError(f'reference has no rule for :{name}')
 
     def match_compound(self, el, c, top_level):
